@@ -70,11 +70,16 @@ class System(object):
     pass
 
 
+_CRYS_CACHE = {}
+_CLUSTER_CACHE = {}
+
+
 def build(rng, name, setup=None, sup=None, vacancy=False, jumps=False, ts=False, vals="int", kra="int",
           vac_index=None):
     """construct a System; returns None if the combination is not constructible (no jumps for the cutoff)"""
     mk, chem, spect = CRYSTALS[name]
-    crys = mk()
+    if name not in _CRYS_CACHE: _CRYS_CACHE[name] = mk()      # Crystal() is slow for elongated cells (BZ construction)
+    crys = _CRYS_CACHE[name]
     cutoff, order, jcut = setup if setup is not None else rng.choice(SETUPS[name])
     sl = superlatt(sup if sup is not None else rng.choice(SUPERS[name]))
     S = System()
@@ -88,7 +93,8 @@ def build(rng, name, setup=None, sup=None, vacancy=False, jumps=False, ts=False,
         cand = [n for n in range(S.Nsites) if S.sup.ciR(n)[0][0] == chem]
         S.vacancy = int(vac_index if vac_index is not None else rng.choice(cand))
         S.sup.addvacancy(S.vacancy)
-    bare = cluster.makeclusters(crys, cutoff, order)
+    if (name, cutoff, order) not in _CLUSTER_CACHE: _CLUSTER_CACHE[name, cutoff, order] = cluster.makeclusters(crys, cutoff, order)
+    bare = _CLUSTER_CACHE[name, cutoff, order]
     S.clusterexp = list(bare)
     S.vacclusters = []
     if vacancy:
